@@ -372,6 +372,7 @@ pub fn worker_loop(check: &dyn Check, tier: Tier, core: usize) {
         };
         let b: u64 = it.next().and_then(|x| x.parse().ok()).unwrap_or(a + 1);
         let mut acc = Acc::default();
+        let mut done_upto = b;
         for idx in a..b {
             if check.crash_is_violation() {
                 let mut o = stdout.lock();
@@ -379,12 +380,18 @@ pub fn worker_loop(check: &dyn Check, tier: Tier, core: usize) {
                 let _ = o.flush();
             }
             check.run_item(idx, tier, &mut acc);
+            // threads of abandoned executions stay parked in this process for ever: hand the
+            // rest of the range back and start afresh before there are too many of them
+            if leaked_total + acc.leaked_threads > 300 && idx + 1 < b {
+                done_upto = idx + 1;
+                break;
+            }
         }
         leaked_total += acc.leaked_threads;
-        // too many threads of abandoned executions parked in this process: start afresh
         let recycle = leaked_total > 300;
         let mut v = acc.to_json();
         v["recycle"] = json!(recycle);
+        v["done_upto"] = json!(done_upto);
         let mut o = stdout.lock();
         let _ = writeln!(o, "{}", v);
         let _ = o.flush();
@@ -443,7 +450,8 @@ struct WorkerProc {
 }
 
 enum RangeResult {
-    Done(Acc, bool),
+    /// (result, worker wants to be recycled, first item NOT done)
+    Done(Acc, bool, u64),
     Died { current: Option<u64>, status: String },
 }
 
@@ -509,7 +517,8 @@ impl WorkerProc {
                         } else if l.starts_with('{') {
                             if let Ok(v) = serde_json::from_str::<Value>(l) {
                                 let recycle = v["recycle"].as_bool().unwrap_or(false);
-                                return RangeResult::Done(Acc::from_json(&v), recycle);
+                                let upto = v["done_upto"].as_u64().unwrap_or(b);
+                                return RangeResult::Done(Acc::from_json(&v), recycle, upto);
                             }
                         }
                     }
@@ -579,11 +588,15 @@ pub fn coordinate(check: &dyn Check, tier: Tier) -> Outcome {
                     }
                 };
                 // a range may use what is left of the budget plus a grace period
-                let limit = budget.saturating_sub(t0.elapsed()) + Duration::from_secs(60);
+                // (generous: on a loaded machine hand-offs between pinned threads get slow)
+                let limit = budget.saturating_sub(t0.elapsed()) + budget * 3 + Duration::from_secs(120);
                 match wp.run_range(a, b, limit) {
-                    RangeResult::Done(acc, recycle) => {
+                    RangeResult::Done(acc, recycle, upto) => {
                         total.lock().unwrap().merge(acc);
-                        done_items.fetch_add(b - a, Ordering::SeqCst);
+                        done_items.fetch_add(upto.min(b) - a, Ordering::SeqCst);
+                        if upto < b {
+                            redo.lock().unwrap().push((upto, b));
+                        }
                         if recycle {
                             wp.end();
                             wp = WorkerProc::spawn(&exe, &id, tier, w);
